@@ -12,6 +12,7 @@ import math
 import random
 
 import torch
+from .core import sint
 
 from . import tlc, tv
 
@@ -19,7 +20,10 @@ LEVEL = "other"
 
 
 def cdb(p):
-    return int(round(1000.0 * math.log10(max(float(p), 1e-300))))
+    p = float(p)
+    if not math.isfinite(p):
+        return 9999999          # inf / nan power: far outside every band - a verdict, not a machinery failure
+    return sint(1000.0 * math.log10(max(p, 1e-300)))
 
 
 def run(run):
@@ -45,7 +49,7 @@ def run(run):
         evs.append(e)
         meta.append((comp, cfg))
     N = 1000000
-    shapes = [(N,), (1000, 1000), (10, 10, 100, 100)]
+    shapes = [(N,), (1000, 1000), (10, 10, 100, 100), (1, N)]
     sig_pows = [1e-3, 1.0, 1e3]
     snrs = [-30.0, -20.0, -10.0, 0.0, 5.0, 10.0, 20.0, 30.0, 40.0] if not quick else [-20.0, 10.0, 40.0]
     ci = 0
@@ -71,7 +75,7 @@ def run(run):
         nz = noise.to(torch.complex128) if noise.is_complex() else noise.double()
         p = float((nz.abs() ** 2).mean())
         m = complex(nz.mean()) if noise.is_complex() else float(nz.mean())
-        return p, int(round(abs(m) / math.sqrt(max(p, 1e-300)) * 1e6))
+        return p, sint(abs(m) / math.sqrt(max(p, 1e-300)) * 1e6) if math.isfinite(p) else 99999998
     chans = []
     for cplx in (False, True):
         for P in ((1e-3, 0.5, 40.0) if quick else (1e-4, 1e-3, 0.5, 1.0, 40.0, 1e3)):
@@ -100,7 +104,7 @@ def run(run):
         for sp in pows:
             ci += 1
             if quick:
-                variants.append((sp, shapes[ci % 3], "gaussian"))
+                variants.append((sp, shapes[ci % len(shapes)], "gaussian"))
             else:
                 for si, shp in enumerate(shapes):
                     variants.append((sp, shp, ("gaussian", "constant_modulus", "sparse")[(ci + si) % 3] if mode == "snr" else "gaussian"))
@@ -128,12 +132,29 @@ def run(run):
             elif mode == "scale":
                 exp = cdb(2 * val * val * (2 if cplx else 1))
             else:
-                exp = cdb(sig) - int(round(100 * val))
+                exp = cdb(sig) - sint(100 * val)
             add({"ev": "Noise", "N": nreal, "family": family, "noise_cdb": cdb(p), "expected_cdb": exp, "mean_ppm": mean_ppm, "verbatim": -1, "scaling": -1,
                  "shape_ok": tuple(y.shape) == tuple(shape) and (y.is_complex() == cplx)}, comp, cfg)
             run.case(tuple(sorted((k, str(v)) for k, v in cfg.items())), nontrivial=True)
             if mode == "snr" and comp == "AWGNChannel":
                 tools.append((cfg, fx, y, sig, p))
+    # half-precision signals through the SNR path: the noise power is still computed at full resolution
+    for comp, mk, family in (("AWGNChannel", lambda v: AWGNChannel(snr_db=v), "gaussian"), ("LaplacianChannel", lambda v: LaplacianChannel(snr_db=v), "laplacian")):
+        for dt in (torch.float16, torch.bfloat16):
+            for sp, val in ((1e-4, 40.0), (4e-4, 30.0), (1.0, 10.0)) if dt == torch.float16 else ((1.0, 10.0), (25.0, 0.0)):
+                shape = (1000, 1000)
+                x = signal(False, sp, shape).to(dt)
+                cfg = {"channel": comp, "mode": "snr", "complex": False, "value": val, "signal_power": sp, "ndim": 2, "dtype": str(dt).replace("torch.", "")}
+                try:
+                    y = mk(val)(x)
+                except Exception as ex:
+                    continue        # a channel may reject half precision; a wrong noise level counts
+                noise = y.double() - x.double()
+                p_ = float((noise ** 2).mean())
+                sig = float((x.double() ** 2).mean())
+                add({"ev": "Noise", "N": N, "family": family, "noise_cdb": cdb(p_ if not math.isfinite(p_) else max(p_, 1e-30)), "expected_cdb": cdb(sig) - sint(100 * val), "mean_ppm": 99999999 if dt == torch.bfloat16 else sint(abs(float(noise.mean())) / math.sqrt(max(p_, 1e-300)) * 1e6),
+                     "verbatim": -1, "scaling": -1, "shape_ok": tuple(y.shape) == shape}, comp, cfg)
+                run.case(tuple(sorted((k, str(v)) for k, v in cfg.items())), nontrivial=True)
     # exact clauses
     for comp, cls in (("AWGNChannel", AWGNChannel),):
         for cplx in (False, True):
@@ -163,7 +184,7 @@ def run(run):
         for name, f in (("calculate_snr", lambda: U.calculate_snr(fx, y)), ("SignalToNoiseRatio", lambda: SignalToNoiseRatio()(fx.reshape(1, -1), y.reshape(1, -1)))):
             try:
                 v = float(torch.as_tensor(f()).reshape(-1)[0])
-                got = int(round(v * 100)) if math.isfinite(v) else 9999999
+                got = sint(v * 100) if math.isfinite(v) else 9999999
             except Exception as ex:
                 got = -9999999
             add({"ev": "Conv", "kind": "snr_from_powers", "a_cdb": a, "b_cdb": b, "got_cdb": got}, name, dict(cfg, tool=name))
@@ -175,10 +196,10 @@ def run(run):
             try:
                 lin = U.snr_db_to_linear(arg)
                 back = U.snr_linear_to_db(lin)
-                got = int(round(float(torch.as_tensor(back).reshape(-1)[0]) * 100))
+                got = sint(float(torch.as_tensor(back).reshape(-1)[0]) * 100)
             except Exception:
                 got = -9999999
-            add({"ev": "Conv", "kind": "identity", "a_cdb": int(round(d * 100)), "b_cdb": 0, "got_cdb": got}, "snr_db_to_linear/snr_linear_to_db", {"tool": "db_linear_round_trip", "form": form})
+            add({"ev": "Conv", "kind": "identity", "a_cdb": sint(d * 100), "b_cdb": 0, "got_cdb": got}, "snr_db_to_linear/snr_linear_to_db", {"tool": "db_linear_round_trip", "form": form})
             for S in (1e-3, 2.0, 500.0):
                 sarg = S if form == "float" else torch.tensor([S, S])
                 try:
@@ -186,22 +207,33 @@ def run(run):
                     got = cdb(float(torch.as_tensor(npow).reshape(-1)[0]))
                 except Exception:
                     got = -9999999
-                add({"ev": "Conv", "kind": "noise_from_snr", "a_cdb": cdb(S), "b_cdb": int(round(d * 100)), "got_cdb": got}, "snr_to_noise_power", {"tool": "snr_to_noise_power", "form": form})
+                add({"ev": "Conv", "kind": "noise_from_snr", "a_cdb": cdb(S), "b_cdb": sint(d * 100), "got_cdb": got}, "snr_to_noise_power", {"tool": "snr_to_noise_power", "form": form})
                 try:
                     Nn = S / (10 ** (d / 10.0))
                     sn = U.noise_power_to_snr(sarg, Nn if form == "float" else torch.tensor([Nn, Nn]))
-                    got = int(round(float(torch.as_tensor(sn).reshape(-1)[0]) * 100))
+                    got = sint(float(torch.as_tensor(sn).reshape(-1)[0]) * 100)
                 except Exception:
                     got = -9999999
                 add({"ev": "Conv", "kind": "snr_from_powers", "a_cdb": cdb(S), "b_cdb": cdb(Nn), "got_cdb": got}, "noise_power_to_snr", {"tool": "noise_power_to_snr", "form": form})
                 run.case(("conv", d, form, S), nontrivial=True)
+            # integer-valued signal powers given as Python int, integer tensor and float64 tensor: the result is a real number in every form
+            for S, sarg, fname_ in ((2, 2, "int"), (2, torch.tensor(2), "int64_tensor"), (500, torch.tensor([500, 500]), "int64_tensor"), (2, torch.tensor(2.0, dtype=torch.float64), "float64_tensor")):
+                if form != "float":
+                    break
+                try:
+                    npow = U.snr_to_noise_power(sarg, d)
+                    got = cdb(max(float(torch.as_tensor(npow).double().reshape(-1)[0]), 1e-30))
+                except Exception:
+                    got = -9999999
+                add({"ev": "Conv", "kind": "noise_from_snr", "a_cdb": cdb(S), "b_cdb": sint(d * 100), "got_cdb": got}, "snr_to_noise_power", {"tool": "snr_to_noise_power", "form": fname_})
+                run.case(("conv", d, fname_, S), nontrivial=True)
     for cplx in (False, True):
         for d in (-10.0, 3.0, 25.0):
             x = signal(cplx, 2.0, (200, 5000))
             yy, nn = U.add_noise_for_snr(x, d)
             p, _ = measure(nn, 0)
             sig = float((x.to(torch.complex128).abs() ** 2).mean()) if cplx else float((x.double() ** 2).mean())
-            add({"ev": "Noise", "N": 1000000 * (2 if cplx else 1), "family": "gaussian", "noise_cdb": cdb(p), "expected_cdb": cdb(sig) - int(round(100 * d)), "mean_ppm": 99999999,
+            add({"ev": "Noise", "N": 1000000 * (2 if cplx else 1), "family": "gaussian", "noise_cdb": cdb(p), "expected_cdb": cdb(sig) - sint(100 * d), "mean_ppm": 99999999,
                  "verbatim": int(torch.equal(yy, x + nn)), "scaling": -1, "shape_ok": tuple(yy.shape) == tuple(x.shape)}, "add_noise_for_snr", {"tool": "add_noise_for_snr", "complex": cplx, "value": d})
     run.log("%d events" % len(evs))
     mism = tv.validate(run, "Trace_Channels", evs, name="TV C07", timeout=1800)
